@@ -37,10 +37,17 @@ def _np_value(kind, v):
 
 @st.composite
 def _plan(draw, max_rows):
-    fp = draw(gen.frame_plan(kinds=KINDS, max_rows=max_rows, max_cols=4, prefix="c"))
+    if draw(st.integers(0, 5)) == 0:
+        # several key columns that can hold missing values, tight pools: rows that differ only in *where* the
+        # missing value sits (and in 0 / epoch vs missing) are the norm here
+        fp = draw(gen.frame_plan(kinds=["f", "d", "t", "td", "f", "s", "o"], max_rows=max_rows, max_cols=3, min_cols=2,
+                                 prefix="c", mode="tight"))
+        name = draw(st.sampled_from(["unique", "unique", "drop_na"]))
+    else:
+        fp = draw(gen.frame_plan(kinds=KINDS, max_rows=max_rows, max_cols=4, prefix="c"))
+        name = draw(st.sampled_from(["filter", "filter_out", "filter_kv", "filter_out_kv", "slice", "slice_off",
+                                     "head", "tail", "drop_na", "sample", "unique", "unique"]))
     n, cols = fp["n"], fp["cols"]
-    name = draw(st.sampled_from(["filter", "filter_out", "filter_kv", "filter_out_kv", "slice", "slice_off",
-                                 "head", "tail", "drop_na", "sample", "unique", "unique"]))
     op = {"name": name}
     if name in ("filter", "filter_out"):
         op["mask"] = [draw(st.booleans()) for _ in range(n)]
@@ -79,7 +86,7 @@ def _plan(draw, max_rows):
         if name == "sample":
             op["seed"] = draw(st.integers(0, 2**31 - 1))
     elif name == "drop_na":
-        k = draw(st.integers(0, min(3, len(cols))))
+        k = draw(st.integers(0 if len(cols) < 2 else 1, min(3, len(cols))))
         op["cols"] = [cols[j]["name"] for j in draw(st.permutations(range(len(cols))))[:k]]
     elif name == "unique":
         k = draw(st.integers(0, min(3, len(cols))))
